@@ -229,7 +229,10 @@ OpApplyOK(ev) ==
       fs == FsOf(ev)
       e == ev.ast
       native == \A i \in DOMAIN fs : fs[i].g = a.g
-  IN /\ For("C14") => SplOf(ev.a_after) = a
+  IN /\ For("C14") => /\ SplOf(ev.a_after) = a
+                       \* the operator holds its own copy of a spline factor (same outcome, same result
+                       \* after the factor object was scaled in place)
+                       /\ (ev.app = "ok" => ev.indep = "ok" /\ B(ev.indep_same))
      /\ For("C10") => (ev.app = "ok" => SplValid(SplOf(ev.app_v)))
      /\ IF native \/ ~UsesSpl(e)
         THEN /\ For("C04") \/ For("C05") \/ For("C08") => ev.app = "ok" /\ ApplyPost(e, a, fs, SplOf(ev.app_v))
